@@ -17,6 +17,7 @@ type typeOps struct {
 	NewZero func() interface{}               // new(T) without defaults
 	ToRef   func(p interface{}) *RVal        // *T -> tree
 	Deref   func(p interface{}) interface{}  // *T -> T (by value)
+	Clone   func(p interface{}) interface{}  // *T -> pointer to a shallow copy (shares every pointee with the original)
 	Fill    func(p interface{}, name string) // fill *T with symbolic contents
 	Prefill func(p interface{}, name string) // like Fill, but by-value struct fields are left in their fresh state
 	Walk    func(p interface{}, w *walker)   // visit every pointer / slice / string reachable from *T
@@ -160,6 +161,14 @@ func fillUnknown(name string) []byte {
 	return append(b, vrt.Bytes(name, 4)...)
 }
 
+// prefillUnknown: holder contents left over from an earlier decode into the same destination (24 arbitrary bytes, spare
+// capacity): the next decode must replace them, not extend them.
+func prefillUnknown(name string) []byte {
+	b := make([]byte, 24, 64)
+	copy(b, vrt.Bytes(name, 24))
+	return b
+}
+
 // bytesCore: arbitrary input bytes (C05, C03(b), C09, C11 on the decode side).
 func bytesCore(ops *typeOps) {
 	N := vrt.Param("N")
@@ -243,15 +252,19 @@ func (w *walker) region(p unsafe.Pointer, nbytes, align, elemSize int, hasPtr bo
 	if vrt.IsStatic(p) {
 		return // immutable literal (a declared default), not memory created for a transmitted value
 	}
-	vrt.Check(vrt.IsOwner(p, "dec+"), "C06 memory belongs to this decode")
+	blo, bhi := w.bufRange()
+	vrt.Check(a+uintptr(nbytes) <= blo || a >= bhi, "C06 does not overlap the input buffer")
+	owned := vrt.IsOwner(p, "dec+")
+	vrt.Check(owned, "C06 memory belongs to this decode")
+	if !owned {
+		return // (ownership is an engine-side fact; the allocation-level checks below are only meaningful for owned memory)
+	}
 	vrt.Check(vrt.BlockOff(p)+uint64(nbytes) <= vrt.BlockSize(p) || !vrt.Symbolic(), "C06 extent lies inside its allocation")
 	if hasPtr {
 		vrt.Check(!vrt.BlockNoScan(p) || !vrt.Symbolic(), "C06 pointer-bearing memory is visible to the GC (typed allocation)")
 		es := vrt.BlockElemSize(p)
 		vrt.Check(es == 0 || es == uint64(elemSize) || !vrt.Symbolic(), "C06 typed allocation has the element type of its contents")
 	}
-	blo, bhi := w.bufRange()
-	vrt.Check(a+uintptr(nbytes) <= blo || a >= bhi, "C06 does not overlap the input buffer")
 	for _, e := range w.exts {
 		vrt.Check(a+uintptr(nbytes) <= e.lo || a >= e.hi, "C06 overlaps no other piece of decoded memory")
 	}
@@ -458,6 +471,14 @@ func decmsgWith(w, t *typeOps, pred func()) {
 		fixedShape = -1
 	}
 	dst := t.ToRef(pw)
+	// a shallow copy of the destination as the caller handed it over: it keeps the OLD pointers, slices and maps, so
+	// whatever the decode writes through them (instead of into the destination's own fields) shows up here
+	var oldp interface{}
+	var oldRef *RVal
+	if prefilled {
+		oldp = t.Clone(pw)
+		oldRef = t.ToRef(oldp)
+	}
 	var d refDec
 	rn, want, rok := refDecodeStruct(t.St, buf, dst, &d, 1<<20)
 	vrt.Freeze("buf", true)
@@ -480,6 +501,9 @@ func decmsgWith(w, t *typeOps, pred func()) {
 			got := t.ToRef(pw)
 			vrt.Check(refEqualStruct(t.St, want, got), "C03 every transmitted field is set to the transmitted value, every other field untouched")
 			vrt.Observe("got", refEncodeStruct(t.St, got, nil))
+		}
+		if prefilled {
+			vrt.Check(refEqualStruct(t.St, oldRef, t.ToRef(oldp)), "C03 memory the destination's previous contents point to is left untouched (new values get new memory)")
 		}
 		wk := &walker{buf: buf, prefilled: prefilled}
 		t.Walk(pw, wk)
